@@ -60,6 +60,45 @@ func counterMap(prefix string) map[string]uint64 {
 	return m
 }
 
+// counterHandles scans the process-wide store once and returns readers for the metrics under prefix:
+// the store keeps every scope ever created, so scanning it on every poll makes long runs quadratic.
+func counterHandles(prefix string) func(name string) uint64 {
+	cs := map[string]*stats.Counter{}
+	gs := map[string]*stats.Gauge{}
+	scan := func() {
+		for _, c := range stats.Store().Counters() {
+			if strings.HasPrefix(c.Name(), prefix) {
+				cs[strings.TrimPrefix(c.Name(), prefix)] = c
+			}
+		}
+		for _, g := range stats.Store().Gauges() {
+			if strings.HasPrefix(g.Name(), prefix) {
+				gs[strings.TrimPrefix(g.Name(), prefix)] = g
+			}
+		}
+	}
+	misses := 0
+	return func(name string) uint64 {
+		for try := 0; try < 2; try++ {
+			if c, ok := cs[name]; ok {
+				return c.Value()
+			}
+			if g, ok := gs[name]; ok {
+				return g.Value()
+			}
+			// the store lists a metric once it has been used: look again (not on every poll of a metric that does not exist yet)
+			if try == 0 {
+				misses++
+				if misses > 3 && misses%16 != 0 {
+					return 0
+				}
+				scan()
+			}
+		}
+		return 0
+	}
+}
+
 var c20Cmds = []string{"get", "set", "mget", "mset", "del", "ping"}
 
 func (c *c20) execRq(toks []string) string {
@@ -256,6 +295,7 @@ func (c *c20) execCx(f []string) string {
 		return "procerr"
 	}
 	prefix := "service." + p.Name() + "."
+	metric := counterHandles(prefix)
 	type pair struct{ cli, be net.Conn }
 	var conns []*pair
 	stopped := false
@@ -330,7 +370,7 @@ func (c *c20) execCx(f []string) string {
 			if pr.cli == nil {
 				continue
 			}
-			destroyedBefore := counterMap(prefix)["downstream.cx_destroy_total"]
+			destroyedBefore := metric("downstream.cx_destroy_total")
 			if a[0] == 'c' {
 				pr.cli.Close()
 				if pr.be != nil {
@@ -346,7 +386,7 @@ func (c *c20) execCx(f []string) string {
 			}
 			pr.cli, pr.be = nil, nil
 			// the next action must see the registry without this connection
-			for k := 0; k < 500 && counterMap(prefix)["downstream.cx_destroy_total"] == destroyedBefore; k++ {
+			for k := 0; k < 500 && metric("downstream.cx_destroy_total") == destroyedBefore; k++ {
 				time.Sleep(2 * time.Millisecond)
 			}
 		case a == "d":
@@ -415,9 +455,9 @@ func (c *c20) execCx(f []string) string {
 		pr.cli, pr.be = nil, nil
 	}
 	read := func() string {
-		m := counterMap(prefix)
-		return fmt.Sprintf("ds=%d,%d,%d,%d us=%d,%d,%d,%d", m["downstream.cx_total"], m["downstream.cx_destroy_total"], int64(m["downstream.cx_active"]), m["downstream.cx_restricted"],
-			m["upstream.cx_total"], m["upstream.cx_destroy_total"], int64(m["upstream.cx_active"]), m["upstream.cx_connect_fail"])
+		m := metric
+		return fmt.Sprintf("ds=%d,%d,%d,%d us=%d,%d,%d,%d", m("downstream.cx_total"), m("downstream.cx_destroy_total"), int64(m("downstream.cx_active")), m("downstream.cx_restricted"),
+			m("upstream.cx_total"), m("upstream.cx_destroy_total"), int64(m("upstream.cx_active")), m("upstream.cx_connect_fail"))
 	}
 	last := read()
 	stable := 0
